@@ -99,3 +99,34 @@ def bool_read_lexical(sx, p):
     lit = sx.choose('lit', ['true', 'false', '1', '0'])
     back = PROT.from_unicode(Boolean, lit)
     return sx.And(sx.is_bool(back), sx.eq(back, lit in ('true', '1')))
+
+
+# ---------------------------------------------------------------- xs:double: the special values and the edges of the range
+XS_DOUBLE = r'[+-]?([0-9]+(\.[0-9]*)?|\.[0-9]+)([Ee][+-]?[0-9]+)?|-?INF|NaN'
+DOUBLES = [float('inf'), float('-inf'), float('nan'), 0.0, -0.0, 1e308, 1.7976931348623157e308, 5e-324, 1e22, 1e-7, 0.1, -2.5, 123456789.0]
+DOUBLE_LITERALS = [('INF', float('inf')), ('-INF', float('-inf')), ('NaN', None), ('1E4', 1e4), ('-1.5e-3', -1.5e-3), ('.5', 0.5), ('5.', 5.0),
+                   ('+3', 3.0), ('-0', -0.0)]
+
+
+@harness('C08', functions=['spyne.protocol._outbase.OutProtocolBase.double_to_unicode', 'spyne.protocol._inbase.InProtocolBase.double_from_bytes'],
+         bounds={'values': 'enumeration, no symbolic input (binary floating point is outside the engine): the three special values, '
+                           'signed zeros, the largest and smallest doubles and a few ordinary ones written and read back; nine literals '
+                           'of the xs:double lexical space read'})
+def double_special_values(sx, p):
+    """what is written for a double - infinities and NaN included - is an xs:double literal that reads back to the same
+    double; INF / -INF / NaN and exponent forms are read as what they denote"""
+    import math
+    import re
+    from spyne.model.primitive import Double
+    i = sx.choose('case', list(range(len(DOUBLES) + len(DOUBLE_LITERALS))))
+    if i < len(DOUBLES):
+        v = DOUBLES[i]
+        text = PROT.to_unicode(Double, v)
+        sx.observe('text', text)
+        if re.fullmatch(XS_DOUBLE, text) is None:
+            return False
+        back = PROT.from_unicode(Double, text)
+        return math.isnan(back) if math.isnan(v) else (back == v and math.copysign(1, back) == math.copysign(1, v))
+    lit, want = DOUBLE_LITERALS[i - len(DOUBLES)]
+    back = PROT.from_unicode(Double, lit)
+    return math.isnan(back) if want is None else (back == want and math.copysign(1, back) == math.copysign(1, want))
